@@ -298,7 +298,7 @@ def replay_script(exe, cfg, ops, settle=0):
     work = os.path.join(vlib.WORK, "broker-replay-%d" % os.getpid())
     os.makedirs(work, exist_ok=True)
     p = subprocess.run([exe, "replay", "-rabbit=%s" % ("true" if cfg.get("rabbit") else "false"), "-engine", cfg.get("engine", "buntdb"),
-                        "-work", work, "-settle", str(settle)] + (["-auth", cfg["auth"]] if cfg.get("auth") else []), input="\n".join(ops) + "\n", capture_output=True, text=True, timeout=300)
+                        "-work", work, "-settle", str(settle)] + (["-auth", cfg["auth"]] if cfg.get("auth") else []) + (["-maxram", str(cfg["maxram"])] if cfg.get("maxram") else []), input="\n".join(ops) + "\n", capture_output=True, text=True, timeout=300)
     import shutil
     shutil.rmtree(work, ignore_errors=True)
     if p.returncode != 0:
